@@ -481,6 +481,21 @@ class Engine:
             for j_, conj_ in enumerate(goal2.children()):
                 self.emit(kind, base, conj_, f"{tag}/{j_}", consts)
             return
+        if z3.is_quantifier(goal2) and goal2.is_exists() and goal2.num_vars() == 1 and goal2.var_sort(0) == z3.IntSort():
+            # a goal that asks for a witness: offer the obvious candidates (the integer constants opened so
+            # far, and the lengths / last indices of the local lists).  goal == goal \/ instances: sound and
+            # nothing is lost, but trigger-based instantiation now has ground instances to work with.
+            cands = [c_ for c_ in consts if z3.is_int(c_)]
+            for v_ in st.env.values():
+                if isinstance(v_, (ListV, TupListV)):
+                    cands += [v_.n, v_.n - 1]
+            seen_, inst_ = set(), []
+            for t_ in cands[:10]:
+                if t_.get_id() not in seen_:
+                    seen_.add(t_.get_id())
+                    inst_.append(z3.substitute_vars(goal2.body(), t_))
+            if inst_:
+                goal2 = z3.Or(inst_ + [goal2])
         hyps.append(divmod_axiom())
         hyps.extend(self.global_axioms)
         tconsts = [c_ for c_ in consts if c_.sort() == TUP]
@@ -1214,6 +1229,11 @@ class Engine:
                 self.emit("list-repeat-nonneg", st, n >= 0)
                 return ListV(n, lambda i, x=x: x)
             raise Unsupported("list repetition of a non-singleton")
+        if isinstance(op, ast.Mult) and isinstance(a, TupV) and isinstance(b, (IntV, int)):
+            k_ = b.concrete() if isinstance(b, IntV) else b
+            if k_ is None or k_ < 0:
+                raise Unsupported("tuple repetition by a symbolic count")
+            return TupV(list(a.items) * k_)  # (x, ...) * k with a literal k
         if isinstance(op, ast.Add) and isinstance(a, (SeqV, ListV, TupV)) and isinstance(b, (SeqV, ListV, TupV)):
             sa, sb = self.as_seq(a, st), self.as_seq(b, st)
             out = SeqV(sa.n + sb.n, lambda i: vite(i < sa.n, sa.at(i), sb.at(i - sa.n)), "list" if isinstance(a, ListV) else sa.kind)
@@ -1628,6 +1648,9 @@ class Engine:
             probe = v.elt([fresh("p") for _ in range(v.nvars)])
             ar = len(probe) if isinstance(probe, TupV) else 1
             return v.to_set(ar)
+        if isinstance(v, SeqV) and v.kind == "range" and "lo" in v.meta and "hi" in v.meta:
+            lo_, hi_ = v.meta["lo"], v.meta["hi"]
+            return SetV(lambda x, lo_=lo_, hi_=hi_: z3.And(Z(x) >= lo_, Z(x) < hi_), 1)  # set(range(lo, hi))
         if isinstance(v, (SeqV, ListV, TupV)):
             seq = self.as_seq(v, st)
             sample = seq.at(fresh("s"))
